@@ -167,10 +167,19 @@ let () = iter_lines (fun line ->
         let v = parse_gval () in
         let s0 = mk_struct (List.init (int_of_z db) (fun _ -> Z0)) (List.init (int_of_z pc) (fun _ -> PNull)) in
         show print_struct (insert_struct fuel sch id s0 v)
-      | "ext" ->
+      | ("ext" | "extf") as k ->
         let sch = get (next ()) in let id = next_z () in
+        if k = "extf" then ignore (next ());
         let s = parse_struct () in
         show print_gval (extract_struct fixed fuel sch id s)
+      | "ext2" ->
+        (* two extractions into one destination: the second result is a function of the second message only *)
+        let sch = get (next ()) in let id = next_z () in
+        let sa = parse_struct () in
+        let sb = parse_struct () in
+        (match extract_struct fixed fuel sch id sa with
+         | Ok _ -> show print_gval (extract_struct fixed fuel sch id sb)
+         | Err -> "err1" | Panic -> "panic1" | Unmodelled -> "unmodelled" | OutOfFuel -> "fuel")
       | "gen" ->
         let sch = get (next ()) in let id = next_z () in
         let s = parse_struct () in
